@@ -29,7 +29,7 @@ S = Suite(
     "C19",
     what="ffm_kormann_meixner.estimateFootprint / estimateZ0 against the closed form of Kormann & "
          "Meixner (2001) written independently (scipy gammaln / gammaincc)",
-    bound="zm 2..40 m, z0/zm 1e-3..0.1, u* 0.1..0.8, |L| 5..1e9 both signs, wind speed from the "
+    bound="zm 2..40 m, z0/zm 1e-3..0.1, u* 0.1..0.8, |L| 5..1e9 both signs and exactly +-inf, wind speed from the "
           "diabatic log law or perturbed by +-30 %, sigma_v 0.2..2.4, grids <= 1.5e6 cells, res "
           "0.5..8 m, receptor on/off cell centres, wd None / multiples of 90 / arbitrary; argument "
           "types float, int, numpy int64/int32/float32->float64 for integral values; estimateZ0 on "
@@ -412,6 +412,14 @@ def generate(tier, rng):
             res = res * scale
         yield "closed-form", dict(zm=zm, z0=z0, ws=ws, ustar=ustar, L=L, sigma_v=sv, dom=dom,
                                   res=res, mxy=mxy)
+    # ---- exact neutrality: L = +inf / -inf (z/L = 0 on either branch)
+    for k in range(4 if q else 20):
+        zm, z0, ws, ustar, L, sv = _physical(rng)
+        res = rng.choice([1.0, 2.0, 4.0])
+        nx, ny = rng.randint(8, 30), 2 * rng.randint(4, 12)
+        dom = [-res * 2, -res * 2 + nx * res, -ny * res / 2.0, ny * res / 2.0]
+        yield "closed-form", dict(zm=zm, z0=z0, ws=ws, ustar=ustar, L=(float("inf"), float("-inf"))[k % 2], sigma_v=sv, dom=dom, res=res,
+                                  mxy=[0.0, 0.0])
     # ---- call histories: near-twin conditions in one process
     for k in range(4 if q else 30):
         zm, z0, ws, ustar, L, sv = _physical(rng)
